@@ -180,7 +180,7 @@ PROPS = {
     },
     "C11": {
         "module": "ZenonVerif.Props.C11",
-        "extra_modules": ["ZenonVerif.Props.C11Node"],
+        "extra_modules": ["ZenonVerif.Props.C11Node", "ZenonVerif.Props.C11NodeGen"],
         "streams": [S("rewards-pure", 20000, 300000), S("rewards-node", 12, 150, timeout=14400)],
         "rule": "rewards-node stream: one evaluation = one line: an Update call received by the pillar / stake / sentinel / "
                 "liquidity contract of a real node (outcome, new LastEpochUpdate cursor, number of epochs issued), one "
